@@ -148,3 +148,11 @@ impl SeedableRng for XorShiftRng {
         })
     }
 }
+
+// Verification hook (add-only): proof harnesses kept outside this repository are compiled into this module only
+// under `--cfg kani --cfg rngs_verif`; a normal build never sees it (the `env!` is not evaluated when the cfg is off).
+#[cfg(all(kani, rngs_verif))]
+#[allow(missing_docs, missing_debug_implementations, dead_code, unused_imports)]
+mod rngs_verif_harness {
+    include!(concat!(env!("RNGS_VERIF_DIR"), "/kani/incrate/xorshift.rs"));
+}
